@@ -463,7 +463,7 @@ func ruleC17(c *Check) {
 					continue // ids taken from scanned records
 				}
 				ok := false
-				for _, gf := range e.Guards {
+				for _, gf := range c.closeFacts(e.Guards) {
 					if !gf.Neg && gf.T.Op == "==" && gf.T.A[0].Op == "len" && stripConv(gf.T.A[0].A[0]).Eq(stripConv(k[0])) && gf.T.A[1].IsAt("#types.RequestIDLen") {
 						ok = true
 					}
